@@ -4,6 +4,7 @@ pub mod common;
 
 pub mod c02;
 pub mod c03;
+pub mod c04;
 pub mod c05;
 pub mod c07;
 pub mod c08;
@@ -11,11 +12,12 @@ pub mod c09;
 pub mod c10;
 pub mod c11;
 pub mod c12;
+pub mod c18;
 
 use crate::prop::PropDef;
 
 pub fn all() -> Vec<&'static PropDef> {
-	vec![&c02::DEF, &c03::DEF, &c05::DEF, &c07::DEF, &c08::DEF, &c09::DEF, &c10::DEF, &c11::DEF, &c12::DEF]
+	vec![&c02::DEF, &c03::DEF, &c04::DEF, &c05::DEF, &c07::DEF, &c08::DEF, &c09::DEF, &c10::DEF, &c11::DEF, &c12::DEF, &c18::DEF]
 }
 
 pub fn find(id: &str) -> Option<&'static PropDef> {
